@@ -760,7 +760,7 @@ func (w *world) convertCase(nps []NPJ, nilMaps bool) map[string]any {
 			pols = append(pols, projModelPolicy(k, p))
 		}
 	}
-	return map[string]any{"nps": logged, "pols": pols, "convErrs": errs}
+	return map[string]any{"nps": logged, "pols": pols, "convErrs": errs, "nilMaps": nilMaps}
 }
 
 // ---------------------------------------------------------------------------------------------
@@ -800,7 +800,7 @@ var podVals = []string{"a", "b", "c"}
 var nsKeys = []string{"team", "stage", "kubernetes.io/metadata.name"}
 var nsVals = []string{"x", "y"}
 var portNames = []string{"http", "dns", "metrics"}
-var portNums = []int{80, 81, 8080, 53}
+var portNums = []int{80, 81, 82, 8080, 53} // 80/82: a gap of one port that range coalescing must not close
 var protos = []string{"TCP", "UDP", "SCTP"}
 
 func (g *gen) pick(ss []string) string { return ss[g.r.Intn(len(ss))] }
@@ -966,6 +966,9 @@ func (g *gen) ipBlock() IPBJ {
 	bs := g.bases()
 	b := bs[g.r.Intn(len(bs))]
 	blk := IPBJ{CIDR: CIDRJ{A: append([]int{}, b.a...), N: b.n}, Except: []CIDRJ{}}
+	if g.r.Intn(8) == 0 && b.n < 8*len(b.a) {
+		blk.CIDR.A[len(b.a)-1] |= 1 // host bits set in the written form
+	}
 	ne := []int{0, 1, 1, 2}[g.r.Intn(4)]
 	for i := 0; i < ne; i++ {
 		if e, ok := g.subCIDR(b); ok {
@@ -1006,7 +1009,7 @@ func (g *gen) port() PortJ {
 	case 3, 4:
 		lo := portNums[g.r.Intn(len(portNums))]
 		p.Port = ip(lo)
-		p.End = ip(lo + []int{0, 1, 2, 7000}[g.r.Intn(4)])
+		p.End = ip(lo + []int{0, 1, 2, 7000, 65535 - lo}[g.r.Intn(5)])
 	default:
 		p.Name = sp(g.pick(portNames))
 	}
@@ -1209,13 +1212,18 @@ func main() {
 				lg.Reset(t, w.convertCluster(&c))
 			case "case":
 				var cs struct {
-					NPs []NPJ `json:"nps"`
+					NPs     []NPJ `json:"nps"`
+					NilMaps *bool `json:"nilMaps"`
 				}
 				remarshal(rec, &cs)
 				for k := range cs.NPs {
 					normNP(&cs.NPs[k])
 				}
-				lg.Emit("case", w.convertCase(cs.NPs, (t+i)%2 == 0))
+				nilMaps := (t+i)%2 == 0
+				if cs.NilMaps != nil {
+					nilMaps = *cs.NilMaps // replay of a recorded case
+				}
+				lg.Emit("case", w.convertCase(cs.NPs, nilMaps))
 			default:
 				die("unknown behaviour record %v", rec["op"])
 			}
